@@ -404,7 +404,7 @@ Section S.
   Lemma bstep_sound n0 st t : SInv n0 st -> Os (SInv n0) (bstep bi st t).
   Proof.
     intros G. destruct t; cbn [bstep].
-    - destruct (str_eqb _ _); [exact G|exact I].
+    - destruct (str_eqb _ _); [|exact I]. destruct encoding as [e|]; [destruct (valid_encname _); [exact G|exact I]|exact G].
     - destruct (reserved_target (ss_text target)).
       { match goal with |- Os _ (match ?x with Some _ => _ | None => _ end) => destruct x as [v|] end; [|exact I].
         destruct (str_eqb _ _); [exact G|exact I]. }
